@@ -43,7 +43,7 @@ def base_oid(oid):
 def obligation_function(oid, concrete):
     """map an obligation id 'C05/_cache.DNSCache._async_add/ensures#0' to the key used by the concrete check"""
     try:
-        mid = oid.split('/')[1]
+        mid = re.sub(r'\[[^\]]*\]$', '', oid.split('/')[1])
     except IndexError:
         return None
     for fn in concrete:
